@@ -137,6 +137,12 @@ def units(ctx):
            for c in runner.translate_contracts()]
     us += [contract_unit(c, world_setup=runner.setup_call)
            for c in runner.call_contracts()]
+    # keyword and positional spellings are resolved alike: the laziness set
+    # of choose_overload is keyed by the caller's keyword, eager keyword
+    # arguments are evaluated once like positional ones (call shapes with
+    # keyword arguments)
+    us += [contract_unit(c, world_setup=runner.setup_choose)
+           for c in runner.choose_contracts(ctx.tier) if 'kw' in c.short]
     # empty slots / keyword arguments at the grammar level: the semantic
     # actions of the argument-list productions (contracts), and - the LALR
     # construction being outside the verifier's reach - a BOUNDED comparison
